@@ -695,6 +695,26 @@ func (g *Graph) expandCallFrom(n *Node, site ssa.CallInstruction, ctx *Ctx, tail
 	corr := -1
 	if !mayCall && len(exp) == 1 && b != nil {
 		corr = corrResult(exp[0].Fn)
+		// the caller may branch on another bool/error result of the callee (e.g. a `stop` flag
+		// returned next to the error): correlate on the one the block's If actually tests
+		if x, isIf := b.Instrs[len(b.Instrs)-1].(*ssa.If); isIf {
+			if call, isCall := site.(*ssa.Call); isCall && exp[0].Fn.Signature.Results().Len() > 1 {
+				res := exp[0].Fn.Signature.Results()
+				for _, r := range *call.Referrers() {
+					e, isE := r.(*ssa.Extract)
+					if !isE || e.Index >= res.Len() {
+						continue
+					}
+					rt := res.At(e.Index).Type()
+					if !isBoolType(rt) && !types.Identical(rt, types.Universe.Lookup("error").Type()) {
+						continue
+					}
+					if _, ok := nilTestOf(x.Cond, e); ok {
+						corr = e.Index
+					}
+				}
+			}
+		}
 	}
 	var crA, crB, cr *Node
 	split := false
